@@ -1,4 +1,101 @@
-import AffVerif.Model.Iter
-/-! # C13 — traversals and tree metrics (theorems added below as they are proved) -/
+import AffVerif.Proofs.IterLemmas
+/-!
+# C13 — traversals and tree metrics are exact for every shape and start node
+
+`Dfs`, `DfsE` are the stack machines of `src/tree/iter.rs` (with `skip_subtree` = "pop what the last `next`
+pushed and forget it", callable any number of times after any item); `refDfsT` / `refEdgeK` are plain structural
+recursions: pre-order, children by ascending label, sub-trees of the items marked in the schedule omitted.
+Any branching factor, any start node (`start` is the sub-tree the traversal is started at), no bound on size.
+Core Lean only (no Mathlib): axioms `propext`, `Quot.sound` at most.
+-/
 namespace AV
+variable {β : Type}
+
+/-- depth-first node traversal started at any node: exactly the reference pre-order of that node's sub-tree with
+    the skipped sub-trees omitted — depth, index and remaining-sibling counter of every item included -/
+theorem C13_dfs_run (sk : Nat → Nat) (whole start : ITree β) :
+    (Dfs.run sk start.size (Dfs.new whole start) 0).map (·.1) = (refDfsT sk 0 start 0 0).1 := by
+  have := dfs_run_eq_ref sk start.size [(0, start, 0)] 0
+    (if start.idx = whole.idx then whole.size else 0) whole.size 0 (by simp [stackSize])
+  simpa [Dfs.new, refStack] using this
+
+/-- depth-first edge traversal started at any node: the reference edge list below that node -/
+theorem C13_edge_run (sk : Nat → Nat) (whole start : ITree β) :
+    (DfsE.run sk start.size (DfsE.new whole start) 0).map (·.1) = (refEdgeK sk start.idx 0 start.kids 0).1 := by
+  have hsz : stackSizeE (edgeEntries 1 start.idx start.kids.existing) ≤ start.size := by
+    have := stackSizeE_entries 1 start.idx start.kids 0
+    simp only [IKids.existing] at this ⊢
+    cases start with
+    | node i v ks => simp only [ITree.kids, ITree.size] at this ⊢; omega
+  have := dfsE_run_eq_ref sk start.size (edgeEntries 1 start.idx start.kids.existing) start.kids.existing.length
+    (if start.idx = whole.idx then whole.size - 1 else 0) whole.size 0 hsz
+  rw [DfsE.new]
+  rw [this]
+  have h2 := refStackE_entries sk 1 start.idx start.kids 0 0
+  simp only [IKids.existing] at h2 ⊢
+  rw [h2]
+
+mutual
+theorem refDfsT_indices (t : ITree β) (d r k : Nat) :
+    (refDfsT (fun _ => 0) d t r k).1.map (·.idx) = t.indices := by
+  match t with
+  | .node i v ks =>
+    simp only [refDfsT, ne_eq, not_true_eq_false, if_false, List.map_cons, ITree.indices]
+    rw [refDfsK_indices ks (d+1) (k+1)]
+theorem refDfsK_indices (ks : IKids β) (d k : Nat) :
+    (refDfsK (fun _ => 0) d ks k).1.map (·.idx) = ks.indices := by
+  match ks with
+  | .nil => simp [refDfsK, IKids.indices]
+  | .cons none rest => simp only [refDfsK, IKids.indices]; exact refDfsK_indices rest d k
+  | .cons (some t) rest =>
+    simp only [refDfsK, IKids.indices, List.map_append]
+    rw [refDfsT_indices t d rest.count k, refDfsK_indices rest d _]
+end
+
+/-- without skips every node of the sub-tree is visited exactly once, in pre-order (`indices` lists each node once) -/
+theorem C13_dfs_visits_subtree (whole start : ITree β) :
+    ((Dfs.run (fun _ => 0) start.size (Dfs.new whole start) 0).map (·.1)).map (·.idx) = start.indices := by
+  rw [C13_dfs_run, refDfsT_indices]
+
+/-- `num_nodes(start)` (= number of items of the traversal) is the size of the sub-tree -/
+theorem C13_num_nodes (whole start : ITree β) :
+    (Dfs.run (fun _ => 0) start.size (Dfs.new whole start) 0).length = start.size := by
+  have := congrArg List.length (C13_dfs_visits_subtree whole start)
+  simp only [List.length_map] at this
+  rw [this]
+  exact indices_length start
+where
+  indices_length (t : ITree β) : t.indices.length = t.size := by
+    match t with
+    | .node i v ks => simp only [ITree.indices, List.length_cons, ITree.size]; rw [kindices_length ks]; omega
+  kindices_length (ks : IKids β) : ks.indices.length = ks.size := by
+    match ks with
+    | .nil => simp [IKids.indices, IKids.size]
+    | .cons none r => simp only [IKids.indices, IKids.size]; exact kindices_length r
+    | .cons (some t) r =>
+      simp only [IKids.indices, IKids.size, List.length_append]
+      rw [indices_length t, kindices_length r]
+
+/-- `size_hint` of `DfsPre`: at every point of every run — after any `next`, after any `skip_subtree` — the bounds
+    bracket the number of items still to come if `skip_subtree` is not called again (`stackSize`, see
+    `refStack_noskip_length`) -/
+theorem C13_size_hint_dfs (whole start : ITree β) (hsub : start.size ≤ whole.size)
+    (hroot : start.idx = whole.idx → start.size = whole.size) :
+    (Dfs.new whole start).Inv ∧
+    (∀ (s s' : Dfs β) (it : Item), Dfs.Inv s → s.next = some (it, s') → Dfs.Inv s') ∧
+    (∀ s : Dfs β, Dfs.Inv s → Dfs.Inv s.skip) ∧
+    (∀ s : Dfs β, Dfs.Inv s → s.lb ≤ (refStack (fun _ => 0) s.stack 0).1.length ∧
+                              (refStack (fun _ => 0) s.stack 0).1.length ≤ s.ub) :=
+  ⟨Dfs.inv_new whole start hsub hroot, fun s s' it h hn => Dfs.inv_next s s' it h hn, fun s h => Dfs.inv_skip s h,
+   fun s h => by rw [refStack_noskip_length]; exact ⟨h.1, h.2.1⟩⟩
+
+/-! non-vacuity: a five-node tree, traversal from the root with a skip after the second item -/
+def exTree : ITree Nat :=
+  .node 0 0 (.cons (some (.node 1 0 (.cons (some (.node 3 0 (.cons none (.cons none .nil))))
+                                   (.cons (some (.node 4 0 (.cons none (.cons none .nil)))) .nil))))
+            (.cons (some (.node 2 0 (.cons none (.cons none .nil)))) .nil))
+
+example : (Dfs.run (fun k => if k = 1 then 2 else 0) exTree.size (Dfs.new exTree exTree) 0).map (·.1.idx) = [0, 1, 2] := by
+  decide
+
 end AV
